@@ -48,6 +48,7 @@ type FnContract struct {
 	External bool   // assumed, never verified
 	Inline   bool   // force inlining even though a contract exists (contract only used for entry)
 	IfaceMethod bool // contract of an interface method: copied onto every implementation (iface.go)
+	Defines  *Clause // "defines e": callers learn ret == e (see LoadContractFile)
 	Opts     map[string]string
 	File     string
 	Params   []string // for external specs: parameter names (recv first)
@@ -341,6 +342,18 @@ func (cs *Contracts) LoadContractFile(path, pkgPath string, external bool) {
 			cur.Mode = rest
 		case "pure":
 			cur.Pure = true
+		case "defines":
+			// "defines e": names the function's (single) result by a specification term,
+			// e.g. "defines sri(s, substr)". Callers learn ret == e; nothing is checked at the
+			// function itself beyond its other clauses: the term is by definition what this
+			// deterministic function returns for these arguments (the function must be
+			// "modifies nothing" and call nothing without contract - checked when it is verified).
+			e, err := ParseExpr(rest)
+			if err != nil {
+				fail(err.Error())
+				continue
+			}
+			cur.Defines = &Clause{Kind: "defines", Src: rest, E: e, Line: where}
 		case "inline":
 			cur.Inline = true
 		case "opt":
